@@ -93,7 +93,7 @@ def run(chk):
         for n in walk_no_nested(f.node):
             if isinstance(n, ast.Attribute) and n.attr in ("sock", "sendall", "recv", "recv_into"):
                 n_sites += 1
-                inside = (f.cls is not None and f.cls.name == "Client") or (f.cls is None and f.module.rel == exchange.READERS_BASE and f.name in readers)
+                inside = (f.cls is not None and f.cls.name == "Client") or (f.cls is None and f.module.rel == exchange.READERS_BASE and f.name in readers) or (f.cls is None and f.module.rel == exchange.READERS_BASE and f.name in getattr(prog, "send_helpers", {}))  # a send helper next to the readers: C01.R7 decides that it is one send
                 if not inside:
                     r3.fail("%s:touches-%s" % (f.qualname, n.attr), "%s uses .%s outside class Client / the reader functions" % (f.qualname, n.attr), fn=f, node=n)
     r3.ok("%d uses of .sock/.sendall/.recv, all inside Client or the reader functions" % n_sites)
